@@ -39,6 +39,7 @@ package comdoc
 //@        (!short ==> len(r.SAT) >= old(len(r.SAT)) && (len(r.SAT) - old(len(r.SAT))) % (r.SectorSize / 4) == 0)
 //@   ensures @existing_short_cells_keep_their_value short ==> forall(j, 0, old(len(r.SSAT)), r.SSAT[j] == old(r.SSAT[j]))
 //@   ensures @existing_cells_keep_their_value !short ==> forall(j, 0, old(len(r.SAT)), r.SAT[j] == old(r.SAT[j]))
+//@   ensures @tables_stay_separate old(!samearr(r.SAT, r.SSAT)) ==> !samearr(r.SAT, r.SSAT)
 //@   ensures @free_list_is_a_separate_array len(ret0) > 0 ==> !samearr(ret0, r.SAT) && !samearr(ret0, r.SSAT)
 //@   ensures @other_table_untouched (short ==> sameslice(r.SAT, old(r.SAT))) && (!short ==> sameslice(r.SSAT, old(r.SSAT)))
 //@
@@ -51,17 +52,17 @@ package comdoc
 //@   modifies mem(r.sectorBuf)
 //@
 //@ func (*ComDoc).addStream
-//@   property C18
+//@   property C18 C11
+//@   nopanic implicit
 //@   requires (r.SectorSize == 512 || r.SectorSize == 4096) && r.ShortSectorSize >= 1 && r.ShortSectorSize <= r.SectorSize && len(contents) <= 1073741824
 //@   requires len(r.SAT) <= 1073741824 && len(r.SSAT) <= 1073741824 && !samearr(r.SAT, r.SSAT)
-//@   loop 0 sig "for _, i := range freeList" invariant -1 <= rangeindex && rangeindex < len(freeList) && len(contents) >= 0 && (rangeindex == -1 ==> previous == -2 && first == -2)
-//@   loop 0 invariant @regular_stream_state !short ==> sameslice(sat, r.SAT) && \
-//@        (rangeindex == -1 ==> previous == -2 && first == -2) && (rangeindex >= 0 ==> previous == freeList[rangeindex] && first == freeList[0]) && \
+//@   loop 0 sig "for _, i := range freeList" invariant -1 <= rangeindex && rangeindex < len(freeList) && len(contents) >= 0 && (rangeindex == -1 ==> previous == -2 && first == -2) && \
+//@        (short ==> sameslice(sat, r.SSAT)) && (!short ==> sameslice(sat, r.SAT)) && !samearr(r.SAT, r.SSAT) && \
+//@        (rangeindex >= 0 ==> previous == freeList[rangeindex] && first == freeList[0]) && \
 //@        forall(k, 0, len(freeList), 0 <= freeList[k] && freeList[k] < len(sat)) && forall(a, 0, len(freeList), forall(b, a + 1, len(freeList), freeList[a] < freeList[b])) && \
-//@        (len(freeList) > 0 ==> !samearr(freeList, sat))
-//@   loop 0 invariant @chain_links_so_far !short ==> forall(k, 0, rangeindex, sat[freeList[k]] == freeList[k+1])
-//@   ensures @first_sector_of_the_new_chain ret1 == nil && len(contents) > 0 && !short ==> ret0 >= 0 && ret0 < len(r.SAT)
-//@   ensures @chain_is_terminated ret1 == nil && len(contents) > 0 && !short ==> r.SAT[previous] == -2
+//@        (len(freeList) > 0 ==> !samearr(freeList, r.SAT) && !samearr(freeList, r.SSAT))
+//@   loop 0 invariant @chain_links_so_far forall(k, 0, rangeindex, sat[freeList[k]] == freeList[k+1])
+//@   ensures @first_sector_of_the_new_chain ret1 == nil && len(contents) > 0 ==> ret0 >= 0 && (short ==> ret0 < len(r.SSAT)) && (!short ==> ret0 < len(r.SAT))
 //@   ensures @empty_stream_has_no_sectors ret1 == nil && len(contents) == 0 ==> ret0 == -2
 //@
 //@ func (*ComDoc).DeleteFile
